@@ -56,6 +56,9 @@ Each function mirrors the Rust code named next to it (all paths relative to /rep
 * `Middleware`, `applyLayers`, `mwBlock`, `remoteCallMw` — `middleware::{Layer, Service, BoxedService}` as the
                         integrations compose them (`service = layer.layer(service)` in the order of `middlewares()`);
                         a layer may answer itself through the `ser` hook (`error_response(path, ser(MiddlewareError))`).
+* `wsExchange`, `Writer`  — `Websocket::{run_client, run_server}` (lib.rs): an input item is encoded (`Err(e)` ↦ `Err(e.ser())`),
+                        sent with `SinkExt::send` (= `feed` then `flush`), decoded on the server (`Ok(bytes)` ↦ decode or
+                        `Deserialization`, `Err(bytes)` ↦ `de`), answered, and the answer travels back the same way.
 * `inputEncodingsOld`, `textStreamItemsOld` — the code before the repairs `fix: PatchUrl and PutUrl read their
                         arguments from the request body` (F-C13-1) and `fix: StreamingText completes a character
                         split across transport chunks` (F-C13-2); kept for the regression witnesses.
@@ -743,6 +746,43 @@ def uptoFirstErr {ε α : Type} : List (Except ε α) → List (Except ε α)
   | [] => []
   | .ok a :: rest => .ok a :: uptoFirstErr rest
   | .error e :: _ => [.error e]
+
+/-! ### the websocket protocol -/
+
+def wsEncode {E γ : Type} (ec : ErrCodec E) (c : Codec γ) (item : Except E γ) : WireChunk :=
+  match item with
+  | .ok a =>
+    match c.enc a with
+    | .ok b => .ok b
+    | .error m => .error (ec.ser (ec.fromSfe serializationKind m))
+  | .error e => .error (ec.ser e)
+
+def wsDecode {E γ : Type} (ec : ErrCodec E) (c : Codec γ) (frame : WireChunk) : Except E γ :=
+  match frame with
+  | .ok b =>
+    match c.dec b with
+    | .ok a => .ok a
+    | .error m => .error (ec.fromSfe deserializationKind m)
+  | .error b => .error (ec.de b)
+
+/-- one message to the server and its answer back -/
+def wsExchange {E α β : Type} (ec : ErrCodec E) (ci : Codec α) (co : Codec β)
+    (reply : Except E α → Except E β) (m : Except E α) : Except E β :=
+  wsDecode ec co (wsEncode ec co (reply (wsDecode ec ci (wsEncode ec ci m))))
+
+/-- the client's write half: frames queued by `start_send`, frames on the wire -/
+structure Writer where
+  queue : List WireChunk := []
+  wire : List WireChunk := []
+  deriving DecidableEq, Repr
+
+def Writer.feed (w : Writer) (f : WireChunk) : Writer := { w with queue := w.queue ++ [f] }
+def Writer.flush (w : Writer) : Writer := ⟨[], w.wire ++ w.queue⟩
+/-- `SinkExt::send`: feed, then flush -/
+def Writer.send (w : Writer) (f : WireChunk) : Writer := (w.feed f).flush
+
+/-- values are their own encoding (a lawful stand-in for a third-party serialiser, empty values included) -/
+def rawCodec : Codec Bytes := ⟨.ok, .ok⟩
 
 /-- before the repair of F-C13-2: one `String::from_utf8` per transport chunk -/
 def textStreamItemsOld (chunks : List Bytes) : List (Except SErr Bytes) :=
